@@ -213,12 +213,24 @@ class MaybeEncodingError(Exception):
         self.value = repr(value)
         super().__init__(self.exc, self.value)
 
+    def __reduce__(self):
+        # exc and value already are reprs: do not repr() them again each
+        # time the error is unpickled.
+        return _rebuild_encoding_error, (self.__class__, self.exc, self.value)
+
     def __repr__(self):
         return "<%s: %s>" % (self.__class__.__name__, str(self))
 
     def __str__(self):
         return "Error sending result: '%r'. Reason: '%r'." % (
             self.value, self.exc)
+
+
+def _rebuild_encoding_error(cls, exc, value):
+    self = cls.__new__(cls)
+    self.exc, self.value = exc, value
+    Exception.__init__(self, exc, value)
+    return self
 
 
 class WorkersJoined(Exception):
